@@ -121,9 +121,9 @@ def replay(ctx, path):
                 elif op == "CtorBuf": lines.append("CtorBuf %s %d" % (fmtb(e["src"]), e["n"]))
                 elif op in ("PushBack", "PlusEq"): lines.append("%s %d" % (op, e["n"]))
                 else: lines.append(op)
-        t = ctx.drive(drs_sp if name.endswith("_sp") else drs, lines, "replay")
+        t = ctx.drive(drs_sp if name.endswith("_sp") else drs, lines + core.fault_line(d), "replay")
         ctx.report(ctx.judge("FixedStrTrace", [t]))
     else:
-        t = ctx.drive(drv_sp if name.endswith("_sp") else drv, d.get("script") or c02.vec_script(d["execution"]), "replay")
+        t = ctx.drive(drv_sp if name.endswith("_sp") else drv, (d.get("script") or c02.vec_script(d["execution"])) + core.fault_line(d), "replay")
         ctx.report(ctx.judge("VecLifeTrace", [t]))
     return ctx.finish(rule="replay of " + path)
